@@ -77,7 +77,7 @@ func init() {
 		plain:       never,
 		shrinkTime:  120 * time.Second,
 		search: func(s *propSpec, b *build, a *agg) {
-			runs := int64(800)
+			runs := int64(2400)
 			if tier == "thorough" {
 				runs = 1200000
 			}
